@@ -126,7 +126,7 @@ def model(prog, start=0):
 
 
 def run_one(progs, prefix):
-    s = sched.Sched(prefix)
+    s = sched.Sched(prefix, reuse_threads=False)     # thread-local storage must be fresh
     W = _W
     results = [[] for _ in progs]
     cbstate = {}
